@@ -212,6 +212,9 @@ func updateTXTimestamp(clientID string, rxt time.Time, txt *time.Time) {
 	tssMu.Lock()
 	defer tssMu.Unlock()
 
+	// tx timestamp as reported, used to detect that no updated one is available
+	txt64 := ntp.Time64FromTime(*txt)
+
 	if !rxt.Before(*txt) {
 		// ensure strict monotonicity of rx/tx timestamps
 		*txt = rxt
@@ -222,7 +225,6 @@ func updateTXTimestamp(clientID string, rxt time.Time, txt *time.Time) {
 	tssi, ok := tss[clientID]
 	if ok {
 		rxt64 := ntp.Time64FromTime(rxt)
-		txt64 := ntp.Time64FromTime(*txt)
 		var i, x, max0, max1 int
 		for i, x, max0, max1 = 0, -1, -1, -1; i != tssi.len; i++ {
 			if tssi.buf[i].rxt == rxt64 {
@@ -236,7 +238,7 @@ func updateTXTimestamp(clientID string, rxt time.Time, txt *time.Time) {
 		}
 		if x != -1 {
 			if tssi.buf[x].txt != txt64 {
-				tssi.buf[x].txt = txt64
+				tssi.buf[x].txt = ntp.Time64FromTime(*txt)
 			} else {
 				// No updated tx timestamp available
 				if tssi.len == 1 {
